@@ -103,6 +103,9 @@ def estimator_configs():
     add("SklearnClassifier", "DecisionTreeClassifier", skc(lambda: DecisionTreeClassifier(random_state=0)), "clf")
     add("SklearnClassifier", "SGDClassifier", skc(lambda: SGDClassifier(loss="log_loss", random_state=0)), "clf",
         partial=True, sym=True)  # row order is an input of SGD
+    # warm_start learners continue from their previous solution unless the wrapper starts from a fresh copy
+    add("SklearnClassifier", "LogisticRegression(warm_start=True,max_iter=3)",
+        skc(lambda: LogisticRegression(warm_start=True, max_iter=3)), "clf")
     add("SklearnClassifier", "GaussianNB,cost_matrix", skc(GaussianNB, cost_matrix=[[0, 1], [2, 0]]), "clf",
         partial=True)
 
@@ -172,6 +175,9 @@ def estimator_configs():
     add("SklearnRegressor", "DecisionTreeRegressor",
         skr(SklearnRegressor, lambda: DecisionTreeRegressor(random_state=0)), "reg")
     add("SklearnRegressor", "SGDRegressor", skr(SklearnRegressor, lambda: SGDRegressor(random_state=0)), "reg",
+        partial=True, sym=True)
+    add("SklearnRegressor", "SGDRegressor(warm_start=True)",
+        skr(SklearnRegressor, lambda: SGDRegressor(random_state=0, warm_start=True, max_iter=5, tol=None)), "reg",
         partial=True, sym=True)
     add("SklearnNormalRegressor", "GaussianProcessRegressor",
         skr(SklearnNormalRegressor, GaussianProcessRegressor), "reg", weights=False)
